@@ -23,7 +23,7 @@
                   get-or-create mailbox, parser.StoreMessagePerUserWithSharedDBAndS3
                   (INSERT messages; n x INSERT message_headers; INSERT addresses;
                   per part [blob in shared.db] INSERT message_parts),
-                  db.AddMessageToMailboxPerUser (SELECT uid_next; UPDATE uid_next;
+                  db.AddMessageToMailboxPerUser (UPDATE uid_next ... RETURNING;
                   INSERT message_mailbox), RecordDeliveryPerUser
       CAppend     server/message/message.go HandleAppendWithReader (same, no delivery row)
       CBase o     the operations of Model/Ops.v that do not store a message:
@@ -98,7 +98,7 @@ Inductive mstep :=
 | MInsAddress (msg : Z)                         (* INSERT INTO addresses *)
 | MBlob                                         (* shared.db: INSERT INTO blobs / UPDATE blobs SET reference_count *)
 | MInsPart (msg : Z)                            (* INSERT INTO message_parts *)
-| MBump (mb : Z)                                (* UPDATE mailboxes SET uid_next = uid_next + 1 *)
+| MBump (mb : Z)                                (* UPDATE mailboxes SET uid_next = uid_next + 1 ... RETURNING uid_next - 1 *)
 | MInsLink (msg mb uid : Z) (flags : list str)  (* INSERT INTO message_mailbox *)
 | MInsDelivery                                  (* INSERT INTO deliveries *)
 | MTxUidCopy (sel dest : Z) (uids : list Z) (next : Z)   (* BEGIN; INSERT message_mailbox *; COMMIT *)
@@ -202,11 +202,13 @@ Definition msg_steps (id : Z) (sh : shape) : list mstep :=
   MInsMessage sh :: repeat (MInsHeader id) (sh_hdr sh) ++ repeat (MInsAddress id) (sh_adr sh)
   ++ flat_map (fun b : bool => (if b then [MBlob] else []) ++ [MInsPart id]) (sh_parts sh).
 
-(** AddMessageToMailboxPerUser: "SELECT uid_next WHERE id = ?" (no row: error,
-    nothing written), UPDATE uid_next, INSERT message_mailbox *)
+(** AddMessageToMailboxPerUser (raven 807484f): ONE statement
+    "UPDATE mailboxes SET uid_next = uid_next + 1 WHERE id = ? RETURNING uid_next - 1"
+    hands out the UID and advances the counter (no row: the statement is issued,
+    changes nothing, and the caller returns the error), then INSERT message_mailbox *)
 Definition add_steps (s : store) (msg mb : Z) (fl : list str) : list mstep :=
   match find_id s mb with
-  | None => []
+  | None => [MBump mb]
   | Some m => [MBump mb; MInsLink msg mb (mb_next m) fl]
   end.
 (** does that INSERT succeed (UNIQUE(mailbox_id, uid))? *)
